@@ -106,6 +106,10 @@ Definition plain_jump (p : @program val) (i : nat) : bool :=
   | Some (LInstr (IBnan false) _) | Some (LInstr (IBdse false false) _) | Some (LInstr (IBdns false false) _) => true
   | _ => false
   end.
+(* ... and a return (`j ra`) that lands on a region entry: the call was the last instruction of the
+   main code, so coming back from it is again the end of the program running on into the first function *)
+Definition return_like (p : @program val) (i : nat) : bool :=
+  match nth_error p i with Some (LInstr IJ [OReg _]) => true | _ => false end.
 Fixpoint run_guard (O : @oracle val) (p : @program val) (entries : list nat) (fuel : nat) (s : @state val) : @state val :=
   match fuel with
   | O => s
@@ -115,7 +119,8 @@ Fixpoint run_guard (O : @oracle val) (p : @program val) (entries : list nat) (fu
           let s' := step A O p s in
           if existsb (Nat.eqb (pc s')) entries &&
              ((Nat.eqb (pc s') (S (pc s)) && falls_seq p (pc s))
-              || (plain_jump p (pc s) && forallb (fun e => Nat.ltb (pc s) e) entries))
+              || (plain_jump p (pc s) && forallb (fun e => Nat.ltb (pc s) e) entries)
+              || return_like p (pc s))
           then halt s' else run_guard O p entries k s'
       | _ => s
       end
